@@ -28,3 +28,8 @@ pub fn pv_uniq_regs(regs: &Vec<garble_lang::register_circuit::Reg>) -> (v: Vec<g
     s.into_iter().collect()
 }
 } // verus!
+
+verus! {
+pub assume_specification[ crate::mpc::data_types::Auth::macs ](a: &crate::mpc::data_types::Auth) -> (r: Vec<crate::mpc::data_types::Mac>)
+    ensures r.len() == a.0.len(), forall|k: int| 0 <= k < r.len() ==> r@[k] == a.0@[k].0;
+} // verus!
